@@ -10,6 +10,7 @@ M12 == INSTANCE Mon_C12
 M15 == INSTANCE Mon_C15
 M13 == INSTANCE Mon_C13
 M14 == INSTANCE Mon_C14
+M17 == INSTANCE Mon_C17
 VARIABLE mon
 mcvars == <<s, mon>>
 
@@ -22,13 +23,14 @@ MonCfg == [k \in {"initMin", "initMax", "reps", "base", "cyclic", "annTTL", "col
               dsts |-> <<"mc">> \o Cfg.peers,
               egs |-> Cfg.egs, subTTL |-> Cfg.subTTL, refresh |-> Cfg.refresh, findTTL |-> Cfg.findTTL,
               watch0 |-> SetToSeq(UNION Range(Cfg.watch0) \ {"ALL"}),
+              events |-> Cfg.events, values0 |-> Cfg.values0, interval |-> Cfg.egInterval,
               match |-> [f \in DOMAIN Match |-> SetToSeq(Match[f])], svcs |-> SetToSeq(UNION Range(Match))]
 Step(m, e) == CASE Mon = "C06" -> M06!MonStep(m, e) [] Mon = "C10" -> M10!MonStep(m, e)
                 [] Mon = "C11" -> M11!MonStep(m, e) [] Mon = "C12" -> M12!MonStep(m, e)
-                [] Mon = "C15" -> M15!MonStep(m, e) [] Mon = "C13" -> M13!MonStep(m, e) [] Mon = "C14" -> M14!MonStep(m, e)
+                [] Mon = "C15" -> M15!MonStep(m, e) [] Mon = "C13" -> M13!MonStep(m, e) [] Mon = "C14" -> M14!MonStep(m, e) [] Mon = "C17" -> M17!MonStep(m, [svc |-> 4369, mid |-> 32768 + (IF "ev" \in DOMAIN e THEN e.ev ELSE 0), iv |-> 1, mt |-> 2] @@ e)
 MInit == CASE Mon = "C06" -> M06!MonInit(MonCfg) [] Mon = "C10" -> M10!MonInit(MonCfg)
            [] Mon = "C11" -> M11!MonInit(MonCfg) [] Mon = "C12" -> M12!MonInit(MonCfg)
-           [] Mon = "C15" -> M15!MonInit(MonCfg) [] Mon = "C13" -> M13!MonInit(MonCfg) [] Mon = "C14" -> M14!MonInit(MonCfg)
+           [] Mon = "C15" -> M15!MonInit(MonCfg) [] Mon = "C13" -> M13!MonInit(MonCfg) [] Mon = "C14" -> M14!MonInit(MonCfg) [] Mon = "C17" -> M17!MonInit(MonCfg @@ [svc |-> 4369, major |-> 1, maxId |-> Cfg.maxId])
 RECURSIVE Fold(_, _)
 Fold(m, es) == IF es = <<>> THEN m ELSE Fold(Step(m, Head(es)), Tail(es))
 MCInit == Init /\ mon = MInit
@@ -95,8 +97,16 @@ C13_A == [watch0 |-> [L1 |-> {"F1"}, L2 |-> {"F3"}], initMin |-> 0, initMax |-> 
           randVals |-> {0, 1}, peers |-> Peers2] @@ CfgDefault
 C13_B == [watch0 |-> [L1 |-> {"F1"}, L2 |-> {"F3"}], initMin |-> 1, initMax |-> 1, reps |-> 1, base |-> 2,
           randVals |-> {0, 1}, peers |-> Peers2] @@ CfgDefault
+\* ---- C17: event notifications
+EgOps(eps, evs) == {[op |-> o, ep |-> p] : o \in {"eg_sub", "eg_unsub"}, p \in eps}
+                   \cup {[op |-> "eg_set", ev |-> v, val |-> x] : v \in evs, x \in {7, 8}}
+C17_InputsX == EgOps({"e1", "e2"}, {1}) \cup {[op |-> "eg_notify", evs |-> q] : q \in {<<1>>, <<1, 2>>}}
+C17_InputsC == EgOps({"e1", "e2"}, {1}) \cup {[op |-> "eg_create"]}
+C17_X == [maxId |-> 65535, events |-> <<1, 2>>, values0 |-> (1 :> 7 @@ 2 :> 9), egInterval |-> 0, peers |-> Peers2] @@ CfgDefault
+C17_C == [events |-> <<1>>, values0 |-> (1 :> 7), egInterval |-> 2, peers |-> Peers2] @@ CfgDefault
 NoMatch == <<>>
 NoSw == AllOff
+SwOneShot == [AllOff EXCEPT !.NotifyOnceConsumesIterator = TRUE]
 SwFindAll == [AllOff EXCEPT !.FindIgnoresFound = TRUE]
 SwSubOrder == [AllOff EXCEPT !.StopSubNotDeferred = TRUE]
 SwD3 == [AllOff EXCEPT !.DeferRebootFanout = TRUE]
